@@ -70,13 +70,19 @@ def read_back(text, stream, scripting):
         return bool(open_ns) and open_ns[-1] not in (None, HTML_NS)
     tok = rt.Tokenizer(text, final=True, cdata_allowed=cdata_allowed)
     out = []
+    drop_lf = [False]       # tree construction ignores one LF right after <pre>, <textarea>, <listing>
     for t in tok.run():
         if t[0] == "Character":
+            if drop_lf[0]:
+                drop_lf[0] = False
+                if t[1] == "\n":
+                    continue
             if out and out[-1][0] == "Character":
                 out[-1] = ("Character", out[-1][1] + t[1])
             else:
                 out.append(t)
         elif t[0] == "StartTag":
+            drop_lf[0] = False
             out.append(("StartTag", t[1], tuple(sorted(t[2]))))
             ns = None
             self_closing_void = False
@@ -96,13 +102,17 @@ def read_back(text, stream, scripting):
                     tok.state = "script_data"
                 elif name == "plaintext":
                     tok.state = "plaintext"
+                if name in ("pre", "textarea", "listing"):
+                    drop_lf[0] = True
             if not (html and name in VOID) and not self_closing_void and not (t[3] and not html):
                 open_ns.append(ns)
         elif t[0] == "EndTag":
+            drop_lf[0] = False
             out.append(("EndTag", t[1]))
             if open_ns:
                 open_ns.pop()
         elif t[0] == "Comment":
+            drop_lf[0] = False
             out.append(("Comment", t[1]))
         elif t[0] == "DOCTYPE":
             out.append(("DOCTYPE", t[1] or None, t[2] or None, t[3] or None))
